@@ -761,6 +761,9 @@ func main() {
 		emitFn(&fnSpec{file: "helpers.go", name: "defaultPort", coq: "src_default_port", params: "(scheme : bytes)", ret: "bytes",
 			syms: symtab{"scheme": {"scheme", kS}}}, intByName, intCE)
 	})
+	group("SrcHeaderSets.v", func() {
+		translateHeaderSets(intByName, intCE, &out)
+	})
 	group("SrcOrigin.v", func() {
 		translateEffects(effSpec{file: "helpers.go", fn: "sameOrigin", coq: "src_same_origin", params: "(a b : url)", ret: "bool", pure: true,
 			env: func() *eenv {
